@@ -45,7 +45,9 @@ def r1(ctx):
     # filters are loaded when their option is on
     for opt, fn in (("hgignore", "search_upstream_hgignore"), ("dockerignore", "search_upstream_dockerignore")):
         cs = [c for c in walk_exprs(hir) if c["k"] == "Call" and str(c.get("callee", "")).endswith(fn)]
-        ok = len(cs) == 1 and any(t[0] == "if" and t[2] and render(t[1]) == "apply_" + opt for t in guards_of(hir, cs[0])) and \
+        locs_ = Locals(hir)
+        defs_ = [render(d) for i_, d in locs_.defs.items() if i_.split(":")[1] == "apply_" + opt]
+        ok = len(cs) == 1 and any(t[0] == "if" and t[2] and render(t[1]) in ["apply_" + opt] + defs_ for t in guards_of(hir, cs[0])) and \
             opt in render(cs[0]["args"][0])
         n += 1
         ctx.obligation(ok)
